@@ -116,20 +116,20 @@ CONFIGS = [
     # thorough: deeper exhaustive configurations
     Cfg("f3-m1-any", consts(3, 1, NOTTL, False, 2, 4, 6, 0, "ok fail cancel", at="any"), tiers=T,
         mode="check", workers=8, timeout=3000),
-    Cfg("f3-m2", consts(3, 2, NOTTL, False, 3, 3, 6, 0, "ok fail", warm=1), tiers=T, cap=5000),
-    Cfg("lru-m2-x", consts(3, 2, NOTTL, False, 3, 4, 6, 0, "ok fail", warm=2), tiers=T, cap=5000),
-    Cfg("flight-x", consts(4, NOMAX, NOTTL, False, 1, 4, 7, 0, "ok fail cancel"), tiers=T, cap=5000,
+    Cfg("f3-m2", consts(3, 2, NOTTL, False, 3, 3, 6, 0, "ok fail", warm=1), tiers=T, cap=2000),
+    Cfg("lru-m2-x", consts(3, 2, NOTTL, False, 3, 4, 6, 0, "ok fail", warm=2), tiers=T, cap=2000),
+    Cfg("flight-x", consts(4, NOMAX, NOTTL, False, 1, 4, 7, 0, "ok fail cancel"), tiers=T, cap=2000,
         argmode="mixed"),
-    Cfg("ttl-m1", consts(3, 1, 1, False, 2, 3, 6, 2, "ok fail", warm=1), tiers=T, cap=4000),
-    Cfg("cp-m1", consts(3, 1, NOTTL, True, 2, 3, 4, 0, "ok fail", warm=1, at="any"), tiers=T, cap=4000),
-    Cfg("ttl-ord", consts(2, 2, 1, False, 3, 2, 5, 1, "ok", warm=2), tiers=T, cap=3000),
-    Cfg("cp-ttl", consts(2, 2, 1, True, 2, 3, 5, 1, "ok", warm=1), tiers=T, cap=3000),
-    Cfg("sim-m2x", consts(4, 2, NOTTL, False, 3, 7, 12, 0, "ok fail cancel"), tiers=T, mode="sim", nsim=4000),
+    Cfg("ttl-m1", consts(3, 1, 1, False, 2, 3, 6, 2, "ok fail", warm=1), tiers=T, cap=2000),
+    Cfg("cp-m1", consts(3, 1, NOTTL, True, 2, 3, 4, 0, "ok fail", warm=1, at="any"), tiers=T, cap=2000),
+    Cfg("ttl-ord", consts(2, 2, 1, False, 3, 2, 5, 1, "ok", warm=2), tiers=T, cap=1500),
+    Cfg("cp-ttl", consts(2, 2, 1, True, 2, 3, 5, 1, "ok", warm=1), tiers=T, cap=1500),
+    Cfg("sim-m2x", consts(4, 2, NOTTL, False, 3, 7, 12, 0, "ok fail cancel"), tiers=T, mode="sim", nsim=1500),
     Cfg("sim-m1cp", consts(4, 1, NOTTL, True, 3, 6, 10, 0, "ok fail cancel", at="any"), tiers=T, mode="sim",
-        nsim=3000),
-    Cfg("sim-ttlx", consts(4, 2, 1, False, 3, 7, 12, 3, "ok fail cancel"), tiers=T, mode="sim", nsim=3000),
+        nsim=1000),
+    Cfg("sim-ttlx", consts(4, 2, 1, False, 3, 7, 12, 3, "ok fail cancel"), tiers=T, mode="sim", nsim=1000),
     Cfg("sim-none", consts(4, NOMAX, 1, True, 2, 7, 12, 2, "ok fail cancel native", at="any"), tiers=T,
-        mode="sim", nsim=2000, argmode="mixed"),
+        mode="sim", nsim=800, argmode="mixed"),
 ]
 # the model must reproduce the pinned defects: TLC has to refute these on (name of config, invariant)
 REPRODUCE = [("f3-m1", "NoKeyErrorFinding", ("quick", "thorough")),
@@ -285,7 +285,7 @@ def main(tier: str, seed: int) -> int:
                               "fin": finals.get(json.dumps(h, sort_keys=True)),
                               "src": f"{cfg.name}:{'simulate' if cfg.mode == 'sim' else 'graph'}"})
     nmodel = len(scenarios)
-    nrand = 400 if tier == "quick" else 8000
+    nrand = 400 if tier == "quick" else 3000
     for i in range(nrand):
         kw = RANDOM_KW[i % len(RANDOM_KW)]
         scenarios.append({"scn": random_scenario(rng, kw["ttl"] != NOTTL, rng.randint(6, 16)), "kw": kw,
